@@ -1732,6 +1732,12 @@ class SX:
                     return Bv(isinstance(op, ast.NotEq))
             if isinstance(l, Sv) and isinstance(r, Sv):
                 return Bv((l.s == r.s) != isinstance(op, ast.NotEq))
+            if self.eval_comprehensions and {type(l), type(r)} == {Uv, Sv}:
+                u, t = (l, r) if isinstance(l, Uv) else (r, l)
+                if u.unit.lit is not None:
+                    return Bv((u.unit.lit == t.s) != isinstance(op, ast.NotEq))
+                if t.s == '':
+                    return Bv(isinstance(op, ast.NotEq))       # a symbolic unit names a unit of a table: never ''
             if isinstance(l, Uv) and isinstance(r, Uv):
                 if l.unit.key() == r.unit.key():
                     return Bv(not isinstance(op, ast.NotEq))
@@ -2055,6 +2061,9 @@ class SX:
             return [(st, N(Rat.atom(self.ctx.fatom('call:round', (args[0].term,))), 'int'))]
         if name in ('floor', 'ceil', 'trunc') and len(args) == 1 and isinstance(args[0], (N, Dyn)):
             return [(st, N(Rat.atom(self.ctx.fatom('call:' + name, (args[0].term,))), 'int'))]
+        if name in ('min', 'max') and len(args) == 1 and isinstance(args[0], Seq) and not kwargs:
+            nm = f'{name}({args[0].path})'
+            return [(st, self.typed_atom(nm, args[0].elem, nm))]
         if name in ('min', 'max') and len(args) >= 2:
             if all(isinstance(a, Q) for a in args):
                 units = {a.unit.key() if a.unit else None for a in args}
